@@ -12,8 +12,22 @@ func verifAssume(bool) {}
 // ---------------------------------------------------------------------------------------------
 // C12: row limits
 
+// rangeTrimmed(b, n): the buffer at address b of n bytes is the output of the range trim. The row limit must be
+// applied to the range-trimmed rows, never before the trim (typestate carried from trimResultsToRange to
+// trimResultsToLimit through Reader.Read).
+//@ ghost func rangeTrimmed(b int, n int) bool
+
+//@ func (*Reader).Read
+//@ props C12 C11
+//@ loop 0 invariant true
+//@ assumepre executor.trimResultsToRange.rowlen "row length of a variable-length bucket comes from the catalog (GetRowLen), not established here"
+//@ assumepre executor.trimResultsToRange.wholeRows "Reader.read returns whole rows; file I/O is outside the subset"
+//@ assumepre executor.trimResultsToLimit.rowlen "row length from the catalog"
+//@ assumepre executor.trimResultsToLimit.limit "Limit.Number >= 0 is set by SetRowLimit from a non-negative request value"
+
 //@ func trimResultsToLimit
 //@ props C12
+//@ requires #afterRangeTrim: rangeTrimmed(base(src), len(src))
 //@ requires #rowlen: rowLen + 8 > 0 && rowLen < 2147483648
 //@ requires #limit: l.Number >= 0
 //@ ensures #noTrim: len(src)/(rowLen+8) <= l.Number ==> result == src
@@ -39,7 +53,8 @@ func verifAssume(bool) {}
 //@ ensures #abs: abs(result) == rowT(mem(buf), base(buf)+cursor, rowLength)
 
 //@ func trimResultsToRange
-//@ props C11
+//@ props C11 C12
+//@ marks #rangeTrimmed: rangeTrimmed(base(result), len(result))
 //@ option nooverflow
 //@ reveal rowAt
 //@ requires #rowlen: rowlen + 8 >= 12 && rowlen < 2147483648
